@@ -186,7 +186,9 @@ func (chain *blockChain) insertBlock(remoteBlock *types.Block) (types.AddBlockRe
 		return types.AddBlockFailed, nil
 	}
 
-	chain.markAddBlock(blockByte)
+	if !chain.markAddBlock(blockByte) {
+		return types.AddBlockFailed, nil
+	}
 	if !chain.saveBlockByHash(remoteBlock.Header.Hash, blockByte) {
 		return types.AddBlockFailed, nil
 	}
